@@ -255,3 +255,6 @@ func (it *Interp) LenCells() []CellKey {
 	}
 	return out
 }
+
+// LenCellObject returns the pseudo object of a cell's slice length (nil if none).
+func (it *Interp) LenCellObject(k CellKey) *Object { return it.lenCells[k] }
